@@ -17,14 +17,17 @@ STUBS = [
     "bundled file stores: the real _file_store.get_modified_time with os.path.getmtime -> the instant and datetime.fromtimestamp -> MDT naive-local",
     "instants pairwise distinct (the property's own assumption, as in C05); whole seconds",
     "engine: sequential stand-in (world.seq_engine); networkx untraced; shapes chain2 / chain3u / join / src_chain",
+    "kind 'z': timezone-aware in the process zone with ONE shared tzinfo object (as a ZoneInfo instance): ordering / equality between two such values is "
+    "CPython's same-tzinfo rule (naive fields, fold ignored); mirrored with a real tzinfo subclass",
     "naive datetimes denote instants the way CPython defines it (local time, fold); a naive value a user builds by arithmetic inside a repeated hour "
     "(fold reset to 0) is outside the claim",
 ]
 
 
 def expect_for(kinds, zone):
-    mixed = ("a" in kinds) and any(c in kinds for c in "fn")
-    alln = "a" not in kinds
+    aware_ = any(c in kinds for c in "az")
+    mixed = aware_ and any(c in kinds for c in "fn")
+    alln = not aware_
     if zone != "utc" and mixed:
         return "finding:" + K1
     if zone == "back" and alln:
@@ -43,6 +46,12 @@ def conditions(tier):
                     cs.append(xhrun.Cond("harness_time", "c18_stale", {"XH_KINDS": kinds, "XH_ZONE": zone, "XH_TSHAPE": shape},
                                          timeout=240, label=f"c18_stale_{shape}_{kinds.replace('-', 'x')}_{zone}",
                                          expect=expect_for(kinds, zone), twin=(zone in ("utc", "back"))))
+    # timezone-aware values that share ONE tzinfo object of a DST-observing zone (CPython compares / hashes those by wall clock)
+    zk = ["zz-", "zzz", "zaz", "zz-"[:2] + "a"] if tier == "quick" else ["zz-", "zzz", "zaz", "zza", "azz", "za-", "az-"]
+    for kinds in dict.fromkeys(zk):
+        for zone in ("utc", "fixed", "fwd", "back"):
+            cs.append(xhrun.Cond("harness_time", "c18_stale", {"XH_KINDS": kinds, "XH_ZONE": zone, "XH_TSHAPE": "chain2"}, timeout=240,
+                                 label=f"c18_stale_chain2_{kinds.replace('-', 'x')}_{zone}", expect=expect_for(kinds, zone), twin=(zone == "back")))
     for zone in ("utc", "fixed", "fwd", "back"):
         for order_as in ("uberjob", "plain"):
             cs.append(xhrun.Cond("harness_time", "c18_mtime_order", {"XH_ZONE": zone, "XH_ORDER_AS": order_as, "XH_KINDS": "ff-"}, timeout=120,
